@@ -30,6 +30,10 @@ Chains ==
     [] Mode = "oddhead" -> UNION { { [i \in 1..n |-> IF i = p THEN Lib[b] ELSE Lib[Base]] : p \in 1..3, b \in Scripts } : n \in MinN..MaxN }
     [] Mode = "odd"     -> UNION { { [i \in 1..n |-> IF i = p THEN Lib[b] ELSE Lib[Base]] : p \in 1..n, b \in Scripts } : n \in MinN..MaxN }
 
+\* the documented handler limit (Route.Use / appendGroupInfo): a route with m middleware is accepted iff m < abortIndex,
+\* ie the longest chain registration accepts without global middleware has AbortIdx handlers
+ASSUME PrintT(ToJson([limit |-> [k \in 1..8 |-> [n |-> AbortIdx - 4 + k, accepted |-> (AbortIdx - 4 + k) - 1 < AbortIdx]]]))
+
 Init == \E c \in Chains : CursorInit(c)
 Next == CursorNext
 
